@@ -105,6 +105,7 @@ class Env:
         self.sync_m: Dict[int, int] = {}
         self.ctxs: Dict[int, Any] = {}
         self.no_requeue = False
+        self.late_task: Any = None
         self.abort = False
         self.closed = False
 
@@ -523,6 +524,9 @@ def make_tasks(env: Env, broker: ScriptedBroker, cfg: Dict[str, Any]) -> None:
     def ts0(i: int, v: Any = None, w: int = 0) -> Any:
         return body_sync(i, 0, v, w)
 
+    async def tlate(i: int, v: Any = None, w: int = 0) -> Any:
+        return await body_async(i, 0, v, w)
+    env.late_task = tlate
     if not cfg.get("synconly"):
         broker.register_task(ta0, task_name="ta0")
     broker.register_task(ts0, task_name="ts0")
@@ -586,6 +590,8 @@ def build_messages(env: Env, broker: ScriptedBroker, cfg: Dict[str, Any]) -> Non
             if mc.get("timeout"):
                 labels["timeout"] = mc["timeout"] / 10.0
             name = "no_such_task" if kind == "unknown" else mc.get("task", "ta0")
+            if mc.get("late"):
+                name = "tlate"           # a task that is registered while the worker is running (scenario step "register")
             wire_labels, wire_types = labels, None
             if idx % 2 == 0:
                 # the way a kicker puts labels on the wire: stringified values + per-label type (incl. a bytes label whose
@@ -846,6 +852,10 @@ def _play(scn: Dict[str, Any], loop: VLoop, env: Env, broker: "ScriptedBroker", 
                 if broker._wake is not None and not broker._wake.done():
                     broker._wake.set_result(None)
                 loop.settle()
+            elif op == "register":
+                if broker.find_task("tlate") is None:
+                    broker.register_task(env.late_task, task_name="tlate")
+                env.rec("noop", s="register")
             elif op == "settle":
                 loop.settle()
             elif op == "step":
